@@ -7,6 +7,9 @@ import (
 	"encoding/json"
 	"fmt"
 	"github.com/creachadair/jrpc2/channel"
+	"github.com/creachadair/jrpc2/jhttp"
+	"net/http/httptest"
+	"net/url"
 	"sort"
 	"strings"
 	"sync"
@@ -63,7 +66,7 @@ func (w *world) build(n ANode, path string) jrpc2.Assigner {
 		for _, k := range n.Keys {
 			tag := path + "/" + k
 			m[k] = func(ctx context.Context, req *jrpc2.Request) (any, error) {
-				if jrpc2.ServerFromContext(ctx) != w.srv {
+				if got := jrpc2.ServerFromContext(ctx); got == nil || (w.srv != nil && got != w.srv) {
 					w.flag("handler %s: ServerFromContext is not the serving server", tag)
 				}
 				if ir := jrpc2.InboundRequest(ctx); ir == nil || ir.Method() != req.Method() || ir.ID() != req.ID() || ir.ParamString() != req.ParamString() {
@@ -330,6 +333,57 @@ func rawPhase(w *world, c Case, root jrpc2.Assigner, start time.Time) *engine.Ve
 	return nil
 }
 
+func bridgeGetPhase(w *world, c Case, root jrpc2.Assigner) *engine.Verdict {
+	b := jhttp.NewBridge(recorder{w, root}, &jhttp.BridgeOptions{
+		Server:          &jrpc2.ServerOptions{DisableBuiltin: c.DisableBuiltin, AllowPush: true},
+		ParseGETRequest: jhttp.ParseBasic,
+	})
+	defer b.Close()
+	old := w.srv
+	w.srv = nil // (the Getter's server is not reachable from here; ServerFromContext is not compared in this phase)
+	defer func() { w.srv = old }()
+	n := 0
+	for _, name := range c.Names {
+		if n >= 8 {
+			break
+		}
+		// names that survive a URL path unchanged
+		if name == "" || strings.ContainsAny(name, "/?#% ") || !utf8.ValidString(name) {
+			continue
+		}
+		n++
+		req := httptest.NewRequest("GET", "http://h/", nil)
+		req.URL = &url.URL{Scheme: "http", Host: "h", Path: "/" + name}
+		rec := httptest.NewRecorder()
+		b.ServeHTTP(rec, req)
+		reserved := !c.DisableBuiltin && strings.HasPrefix(name, "rpc.")
+		want := ""
+		if !reserved {
+			want = resolve(c.Tree, "", name)
+		}
+		var got struct{ Tag, Method string }
+		json.Unmarshal(rec.Body.Bytes(), &got)
+		switch {
+		case reserved && name == "rpc.serverInfo":
+			if rec.Code != 200 {
+				v := engine.Failf("C17/serverinfo", "GET /rpc.serverInfo through a bridge: status %d %s", rec.Code, rec.Body.Bytes())
+				return &v
+			}
+		case want == "":
+			if rec.Code != 404 {
+				v := engine.Failf("C17/unknown-name-served", "GET /%s through a bridge (DisableBuiltin=%v): status %d %s, the documented lookup finds nothing", name, c.DisableBuiltin, rec.Code, rec.Body.Bytes())
+				return &v
+			}
+		default:
+			if rec.Code != 200 || got.Tag != want || got.Method != name {
+				v := engine.Failf("C17/wrong-handler", "GET /%s through a bridge (DisableBuiltin=%v): status %d %s, the documented lookup gives handler %q", name, c.DisableBuiltin, rec.Code, rec.Body.Bytes(), want)
+				return &v
+			}
+		}
+	}
+	return nil
+}
+
 func run(_ *testing.T, c Case) engine.Verdict {
 	w := &world{}
 	root := w.build(c.Tree, "")
@@ -477,6 +531,12 @@ func run(_ *testing.T, c Case) engine.Verdict {
 	// astral runes, the solidus escaped, one letter escaped): it is the decoded
 	// name that is dispatched.
 	if p := rawPhase(w, c, root, start); p != nil {
+		return *p
+	}
+	// The same assigner behind a Bridge whose GET side is a Getter
+	// (BridgeOptions.ParseGETRequest), on a push-enabled server: the dispatch
+	// rules, the reserved prefix and DisableBuiltin apply there as well.
+	if p := bridgeGetPhase(w, c, root); p != nil {
 		return *p
 	}
 	w.mu.Lock()
